@@ -392,11 +392,11 @@ def rejected_patterns(rng, n):
     lit = lambda k: ("lit", "int", k)
 
     def atom():
-        r = rng.randrange(6)
+        r = rng.randrange(7)
         inner = rng.choice([lit(1), ("sym", "n9"), ("seq", "list", [lit(1), ("sym", "n8")]), ("sym", "None"),
                             ("value", ["mm", "K"]), ("kw", "a")])
         return [("or", []), ("or", [inner]), ("value", []), ("value", [rng.choice(["y", "mm", "a-b"])]),
-                ("as", inner, "_"), ("as", ("or", [lit(1), lit(2)]), "_")][r]
+                ("as", inner, "_"), ("as", ("or", [lit(1), lit(2)]), "_"), ("as", inner, "\uff3f")][r]
 
     def wrap(x, depth):
         if depth == 0:
@@ -418,7 +418,8 @@ def rejected_patterns(rng, n):
         else:
             w = ("seq", "list", [x])
         return wrap(w, depth - 1)
-    fixed = [("or", []), ("or", [lit(1)]), ("value", ["y"]), ("value", []), ("as", lit(1), "_"), ("as", ("sym", "x"), "_"),
+    fixed = [("or", []), ("or", [lit(1)]), ("value", ["y"]), ("value", []), ("as", lit(1), "_"), ("as", ("sym", "x"), "_"), ("as", lit(1), "\uff3f"),
+             ("seq", "list", [("as", ("sym", "x"), "\uff3f")]),
              ("seq", "list", [("or", [lit(2)]), lit(3)])]
     out = list(fixed)
     while len(out) < n:
